@@ -198,7 +198,9 @@ class FExplore(DExplore):
 
 
 def make_jobs(cls, tier, kq, kt, stepq=8, stept=4):
-    J = _make_jobs(cls, tier, kq, kt, stepq=stepq, stept=stept)
+    # thorough: the same depth (a full-stack path costs ~20 ms and a canonical run has ~95 checkpoints: depth 3 over every action took 17 minutes for
+    # one property's family on 16 cores), but EVERY enabled action at both free steps, plus the pseudo-random checkpoints
+    J = _make_jobs(cls, tier, kq, kq, stepq=stepq, stept=stept)
     for j in J:
         if tier == "thorough":
             j.late_kinds = None
